@@ -4,7 +4,9 @@
 OWN = {
     "C01": {"no_panic", "borrows_are_released"},
     "C02": {"list_not_empty", "preselection_inside_list", "selection_inside_list", "auxiliary_is_the_typed_text", "auxiliary_is_the_composed_text",
-            "returned_list_is_the_scratch_list", "key_appends_one_char_or_nothing", "scratch_list_belongs_to_the_text"},
+            "returned_list_is_the_scratch_list", "key_appends_one_char_or_nothing", "scratch_list_belongs_to_the_text",
+            # the auxiliary text is the composition only if every event keeps "typed text = what the user is composing": the session clauses are part of the induction
+            "terminating_event_clears_composition", "backspace_progress"},
     "C03": {"parts_concatenate_to_input", "splits_punctuation_word_punctuation", "three_conversions_concatenated", "transliteration_is_a_candidate"},
     "C05": {"warm_context_gives_the_same_list", "warm_context_gives_the_same_preselection", "memo_entry_holds_direct_candidates_only",
             "memo_entries_survive_the_event", "memo_entry_is_keyed_by_the_word"},
@@ -12,9 +14,10 @@ OWN = {
     "C07": {"autocorrect_entry_is_first", "ranked_best_first", "english_candidate_only_when_enabled_and_not_ansi",
             "english_candidate_is_last_and_is_the_typed_text", "no_candidate_twice"},
     "C08": {"suffix_forms_complete", "memo_entry_holds_direct_candidates_only", "memo_entry_is_keyed_by_the_word"},
-    "C09": {"learned_choice_is_preselected_next_time", "committing_the_preselected_candidate_changes_nothing", "other_learned_entries_survive_a_commit"},
+    "C09": {"learned_choice_is_preselected_next_time", "committing_the_preselected_candidate_changes_nothing", "other_learned_entries_survive_a_commit",
+            "recorded_preselection_is_the_assemblys_answer"},
     "C10": {"no_panic", "unreadable_store_is_treated_as_absent", "failed_save_loses_at_most_that_choice", "commit_ends_the_word",
-            "reload_keeps_the_word_in_progress"},
+            "reload_keeps_the_word_in_progress", "save_replaces_the_whole_file"},
     "C11": {"reloaded_context_equals_a_new_one", "reloaded_list_is_in_use", "configuration_is_replaced", "same_layout_keeps_the_method_and_its_word",
             "changed_layout_replaces_the_method", "later_events_see_the_new_configuration", "method_matches_the_configured_layout",
             "method_is_new_or_refreshed_by_the_update", "event_result_is_the_methods_result", "events_use_the_contexts_data", "current_method_is_last"},
@@ -27,7 +30,9 @@ OWN = {
     "C17": {"punctuation_only_left_untouched", "word_untouched", "leading_quotes_open", "trailing_quotes_close", "smart_quotes_keep_length_and_order",
             "smart_quotes_keep_preselection", "smart_quotes_curl_every_candidate"},
     "C18": {"emoticon_offers_its_emoji_and_keeps_the_literal_text", "emoji_name_offers_all_its_emoji_in_table_order_wrapped", "emoticon_offers_its_emoji",
-            "bengali_emoji_name_offers_all_its_emoji_in_table_order_wrapped"},
+            "bengali_emoji_name_offers_all_its_emoji_in_table_order_wrapped",
+            # the fixed method looks the emoticon up under the raw keys: they must be the keys of this word only
+            "session_invariant_preserved"},
 }
 
 GLUE_C06 = {"flag_matches_state", "terminating_event_clears_composition", "idle_backspace_starts_nothing", "backspace_progress",
